@@ -7,13 +7,15 @@ Open Scope Z_scope.
 Definition sw_case := (config * sw_env * switch_rec * an_mem * list tentry * bool * bool)%type.
 Definition ok_sw (c : sw_case) : bool :=
   let '(cfg, env, sw, mem, tr, ok, emerge) := c in
-  match replay (perform_switchover cfg env sw mem) (init_rstate tr 0 []) with
+  (* the order in which the position readers deliver their results is not observable: retry with ranks *)
+  existsb (fun rank =>
+  match replay_r rank (perform_switchover cfg env sw mem) (init_rstate tr 0 []) with
   | RDone (e, _) rs =>
       Bool.eqb ok (match e with SwOk => true | SwErr _ => false end)
       && Bool.eqb emerge (file_get (se_emerge_file env) (r_files rs))
       && match r_rest rs with [] => true | _ => false end
   | _ => false
-  end.
+  end) (rank_candidates (map fst (se_all_hosts env))).
 Definition mismatches_sw := mismatches ok_sw.
 Definition sw_sites (cs : list sw_case) : list Z :=
   nodup Z.eq_dec (flat_map (fun c : sw_case =>
